@@ -9,6 +9,7 @@
    of the mutex), and [mutex_makes_histories_clean] shows that every history respecting the mutex
    is clean, so [delete_permanent] and [delete_exact_mutex] hold without any exclusion. *)
 From Verif Require Import Shard.Engine C01.Kv C01.Facts C01.Dinv C01.Inv C01.Spec C01.Proofs C01.Link C10.Ninv C10.Proofs C10.Mu.
+From Verif Require Import C10.Guard C10.GuardProofs C10.Epoch C10.EpochInv C10.EpochInvD C10.EpochProofs.
 Open Scope Z_scope.
 
 (* A completed delete removes exactly the points of the selected series inside the inclusive
@@ -188,3 +189,167 @@ Example delete_nonvacuous :
   eng_read_all s' wk = [(1, VInt 10)] /\
   eng_read_all s'' wk = [(1, VInt 10); (3, VInt 31)] /\ ph (sv s'') = Up.
 Proof. vm_compute. repeat split; reflexivity. Qed.
+
+(* ====================================================================================
+   Delete guards and the epoch tracker (tsdb/guard.go, tsdb/epoch_tracker.go, and the
+   protocol of Store.WriteToShard / DeleteSeries / DeleteMeasurement).  C10/Guard.v,
+   C10/Epoch.v.  A delete must not run together with a write to data it selects: a write that
+   started earlier is waited for (epoch tracker), a write that starts meanwhile waits for the
+   delete iff the delete's guard matches one of its points — so the guard has to match every
+   point the delete selects.
+   ==================================================================================== *)
+
+(* The guard over-approximates the delete's selection: for every regex oracle, every condition
+   of the AST (any nesting of AND / OR / parentheses / boolean literals / comparisons of every
+   operand shape, and no condition at all), every list of measurement names, all bounds, every
+   well-formed point (no empty tag value: models.Tags of a real point has none) at any position
+   of any batch: if Store.DeleteSeries would delete the point ([gselects]: the measurement is
+   one of the names, min <= t <= max, and the index yields the series without a filter
+   expression), then guard.Matches of the guard the delete installs answers true.
+   Code as repaired (commit "fix: the delete guard did not cover ..."). *)
+Theorem guard_sound :
+  forall (re_match : N -> str -> bool) (e : option gexpr) (names : list str) (min max : Z)
+         (pt : gpoint) (pre post : list gpoint),
+  wf_point pt = true ->
+  gselects re_match e names min max pt = true ->
+  guard_matches true (new_guard re_match true min max names e) (pre ++ pt :: post) = true.
+Proof. exact guard_sound_lemma. Qed.
+Print Assumptions guard_sound.
+
+(* The pinned guard.go was not sound: `host != 'a'` selects the series cpu (no host tag: the
+   index reads a missing tag as the empty value) and the guard, which only looks at tags the
+   point has, does not match it.  (Corpus entries; confirmed on the real Store.DeleteSeries with
+   both index types: the delete removed the point, the guard answered false.) *)
+Theorem old_guard_sound_refuted :
+  exists (re_match : N -> str -> bool) (e : option gexpr) (names : list str) (min max : Z) (pt : gpoint),
+    wf_point pt = true /\ gselects re_match e names min max pt = true /\
+    guard_matches false (new_guard re_match false min max names e) [pt] = false.
+Proof. exact old_guard_sound_refuted_lemma. Qed.
+Print Assumptions old_guard_sound_refuted.
+
+(* ... in each of these shapes: tag != 'v', tag = '', a regex the empty string matches, !~ with a
+   regex the empty string does not match, _name =~ re, and the first one again under AND / OR /
+   parentheses / boolean literals with the key on the right *)
+Example old_guard_unsound_shapes :
+  forallb (fun e => old_unsound e wit_pt) wit_exprs = true /\
+  forallb (fun e => guard_matches true (new_guard wit_re true 10 10 [s_cpu] (Some e)) [wit_pt]) wit_exprs = true.
+Proof. split; [exact old_guard_unsound_all|exact new_guard_covers_witnesses]. Qed.
+
+(* The repair only widens the guard: whatever the pinned guard matched is still matched. *)
+Theorem guard_fix_only_widens :
+  forall (re_match : N -> str -> bool) (e : option gexpr) (names : list str) (min max : Z) (pts : list gpoint),
+  guard_matches false (new_guard re_match false min max names e) pts = true ->
+  guard_matches true (new_guard re_match true min max names e) pts = true.
+Proof. exact fix_only_widens_lemma. Qed.
+Print Assumptions guard_fix_only_widens.
+
+(* Inclusive bounds: a point at exactly min or exactly max that is otherwise selected is matched. *)
+Theorem guard_time_inclusive :
+  forall (re_match : N -> str -> bool) (e : option gexpr) (names : list str) (min max : Z) (pt : gpoint),
+  wf_point pt = true -> min <= max ->
+  gp_time pt = min \/ gp_time pt = max ->
+  existsb (str_eqb (gp_name pt)) names = true ->
+  is_plain (sel_expr_opt re_match e pt) = true ->
+  guard_matches true (new_guard re_match true min max names e) [pt] = true.
+Proof. exact guard_time_inclusive_lemma. Qed.
+Print Assumptions guard_time_inclusive.
+
+(* ... and the guard is not "match everything": outside the time range, or outside a non-empty
+   list of names, it answers false (either rule) *)
+Theorem guard_skips_outside :
+  forall (fixed : bool) (g : guard) (pt : gpoint),
+  gp_time pt < g_min g \/ gp_time pt > g_max g \/
+  (g_names g <> [] /\ existsb (str_eqb (gp_name pt)) (g_names g) = false) ->
+  guard_matches fixed g [pt] = false.
+Proof. exact guard_skips_outside_lemma. Qed.
+Print Assumptions guard_skips_outside.
+
+(* The reduce / short-circuit rules of newExprGuard keep the meaning: the guard of l AND r
+   matches iff both guards match, the guard of l OR r iff one does (either rule, any regex oracle) *)
+Theorem guard_and_or_compositional :
+  forall (re_match : N -> str -> bool) (fixed : bool) (l r : gexpr) (pt : gpoint),
+  eguard_matches_opt fixed (new_expr_guard re_match fixed (EAnd l r)) pt =
+    eguard_matches_opt fixed (new_expr_guard re_match fixed l) pt && eguard_matches_opt fixed (new_expr_guard re_match fixed r) pt
+  /\
+  eguard_matches_opt fixed (new_expr_guard re_match fixed (EOr l r)) pt =
+    eguard_matches_opt fixed (new_expr_guard re_match fixed l) pt || eguard_matches_opt fixed (new_expr_guard re_match fixed r) pt.
+Proof. intros. split; [apply guard_and_sem|apply guard_or_sem]. Qed.
+Print Assumptions guard_and_or_compositional.
+
+(* the link for kind guard: the model's answers pass the executable spec of C10/Run.v *)
+Theorem guard_model_meets_exec_spec :
+  forall (re_match : N -> str -> bool) (e : option gexpr) (names : list str) (min max : Z) (pts : list gpoint),
+  forallb (fun pt => implb (wf_point pt && gselects re_match e names min max pt)
+                           (guard_matches true (new_guard re_match true min max names e) [pt])) pts = true.
+Proof. exact guard_spec_link. Qed.
+Print Assumptions guard_model_meets_exec_spec.
+
+(* non-vacuity: host != 'a' OR b::tag =~ /a/ selects cpu (no tags) at the bounds and not outside;
+   the guard matches it at the bounds, and does not match cpu,host=a *)
+Example guard_nonvacuous :
+  let e := Some (EOr (EBin BNeq (OVar s_host TUnknown) (OStr s_a)) (EBin BEqRegex (OVar s_b TTag) (ORegex 1))) in
+  let at_ t := {| gp_name := s_cpu; gp_tags := []; gp_time := t |} in
+  let ha := {| gp_name := s_cpu; gp_tags := [(s_host, s_a)]; gp_time := 10 |} in
+  map (fun t => gselects wit_re e [s_cpu] 10 20 (at_ t)) [9; 10; 20; 21] = [false; true; true; false] /\
+  map (fun t => guard_matches true (new_guard wit_re true 10 20 [s_cpu] e) [at_ t]) [9; 10; 20; 21] = [false; true; true; false] /\
+  gselects wit_re e [s_cpu] 10 20 ha = false /\
+  guard_matches true (new_guard wit_re true 10 20 [s_cpu] e) [ha] = false /\
+  guard_matches true (new_guard wit_re true 10 20 [s_cpu] e) [ha; at_ 9; at_ 20] = true.
+Proof. vm_compute. repeat split; reflexivity. Qed.
+
+(* Mutual exclusion.  For every number of writers and deleters, every relation "guard j matches
+   the points of writer i", every schedule (any interleaving of thread steps, any order in which a
+   writer receives the pending guards): in every reachable state, a deleter in its critical
+   section (between Wait and Done: the engine delete) and a writer in its critical section
+   (after all guards, before EndWrite: WritePoints) are never together if the deleter's guard
+   matches the writer's points. *)
+Theorem epoch_mutual_exclusion :
+  forall (mt : nat -> nat -> bool) (nw nd : nat) (sched : list act),
+  let s := ep_run mt sched (ep_init nw nd) in
+  forall (i j : nat) (g gj : N),
+  nth_error (gs_ws s) i = Some (WChk g []) -> nth_error (gs_ds s) j = Some (DlCrit gj) ->
+  mt j i = false.
+Proof. exact epoch_mutual_exclusion_lemma. Qed.
+Print Assumptions epoch_mutual_exclusion.
+
+(* The bookkeeping is exact.  In every reachable state: [writes] is the number of writes in
+   flight; every deleter that is waiting or running has its entry in [deletes], whose pending
+   count IS the number of writes that started before its WaitDelete (smaller generation) and
+   have not ended — never negative, never stuck above 0 once those writes have ended; so its
+   Wait returns exactly when that number is 0. *)
+Theorem epoch_wait_counts :
+  forall (mt : nat -> nat -> bool) (nw nd : nat) (sched : list act),
+  let s := ep_run mt sched (ep_init nw nd) in
+  t_writes (gs_tr s) = count w_active (gs_ws s) /\
+  forall (j : nat) (x : dst) (g : N), nth_error (gs_ds s) j = Some x -> d_gen_of x = Some g ->
+  exists d, find_delete g (gs_tr s) = Some d /\ d_guard d = j /\
+            d_pending d = count (w_active_lt g) (gs_ws s) /\ 0 <= d_pending d /\
+            wait_returns g (gs_tr s) = (count (w_active_lt g) (gs_ws s) =? 0).
+Proof. exact epoch_wait_counts_lemma. Qed.
+Print Assumptions epoch_wait_counts.
+
+(* No deadlock: in every reachable state with an unfinished thread some thread can take a step
+   (a wait only ever points to a thread with a strictly smaller generation). *)
+Theorem epoch_no_deadlock :
+  forall (mt : nat -> nat -> bool) (nw nd : nat) (sched : list act),
+  let s := ep_run mt sched (ep_init nw nd) in
+  unfinished s = true -> exists a s', ep_step mt s a = Some s'.
+Proof. exact epoch_no_deadlock_lemma. Qed.
+Print Assumptions epoch_no_deadlock.
+
+(* the link for kind epoch: every reachable state passes the executable checks that C10/Run.v
+   applies to the states observed on the real tracker *)
+Theorem epoch_model_meets_exec_spec :
+  forall (mt : nat -> nat -> bool) (nw nd : nat) (sched : list act),
+  state_ok mt (ep_run mt sched (ep_init nw nd)) = true.
+Proof. exact epoch_state_ok_lemma. Qed.
+Print Assumptions epoch_model_meets_exec_spec.
+
+(* non-vacuity: two writers and two deleters block each other (a delete waits for the write in
+   flight, the matching write waits for the delete, the second delete for that write) and all
+   four run to completion *)
+Example epoch_nonvacuous :
+  let s := ep_run nv_mt nv_sched (ep_init 2 2) in
+  unfinished s = false /\ gs_ws s = [WDone; WDone] /\ gs_ds s = [DlDone; DlDone] /\
+  t_writes (gs_tr s) = 0 /\ t_deletes (gs_tr s) = [] /\ t_epoch (gs_tr s) = 4%N.
+Proof. exact nv_runs. Qed.
